@@ -17,9 +17,9 @@ import common, girconv, pygen
 from common import drv_batch
 
 PY = "/venv/bin/python"
-FUEL = 60000             # statement budget of girexec
+FUEL = 30000             # statement budget of girexec (a stale infinite loop that grows a string is quadratic in it)
 MAX_LINES = 60000        # line-event limit for CPython runs of *simulated-defect* sources
-ORIG_MAX_LINES = 4000    # generated programs whose CPython run needs more line events are rejected (too heavy)
+ORIG_MAX_LINES = 2500    # generated programs whose CPython run needs more line events are rejected (too heavy)
 
 # open finding id -> (simulation flag, shape that must be present)
 OPEN_SIMS = {
@@ -28,8 +28,8 @@ OPEN_SIMS = {
     "C01/unpack-into-subscript-target": ("unpack_sub", "unpack_sub"),
     "C01/name-operand-read-after-later-call": ("late_name", "late_name"),
     "C01/for-else-dropped": ("for_else_dropped", "for_else"),
-    "C01/import-rewrite-in-strings": ("import_rewrite", "import_dotted"),
     "C01/explicit-base-call-receiver-as-argument": ("base_call_shift", "base_call"),
+    "C01/class-attribute-initialiser-before-module-code": ("class_attr_early", "class_attr_name"),
 }
 # open findings matched by a purely syntactic shape (no behavioural prediction possible)
 OPEN_SHAPES = {
@@ -41,6 +41,7 @@ FIXED_SIMS = {
     "C01/slice-bound-statements-lost": "slice_lost",
     "C01/chained-comparison": "chain",
     "C01/nonlocal-keeps-first-name": "nonlocal_first",
+    "C01/import-rewrite-in-strings": "import_rewrite",
 }
 
 
@@ -345,7 +346,7 @@ def shrink_candidates(prog):
         if s[0] == "def" and s[1] == prog["entry"] and len(path) == 1:
             continue
         nb = delete(body, path)
-        cands.append({"body": nb, "entry": prog["entry"], "argvs": prog["argvs"]})
+        cands.append({"body": nb, "entry": prog["entry"], "argvs": prog["argvs"], "_top": path[0] if len(path) == 1 else None})
     # whole methods of top-level classes
     for i, s in enumerate(body):
         if s[0] == "class":
@@ -379,13 +380,22 @@ def shrink(scratch, prog, still_fails, max_rounds=30, budget_s=75):
         cands = cands[:120]
         res = evaluate(scratch, cands)
         nxt = None
+        tops = []
         for r in res:
             if r["status"] in ("mismatch", "nogir") and still_fails(r):
+                if r["prog"].get("_top") is not None:
+                    tops.append(r["prog"]["_top"])
                 if nxt is None or pygen.count_stmts(r["prog"]["body"]) < pygen.count_stmts(nxt["prog"]["body"]):
                     nxt = r
         if nxt is None:
             break
-        cur = nxt["prog"]
+        if len(tops) > 1:
+            # all top-level statements whose single deletion keeps the failure: try deleting them together
+            comb = {"body": [st for i, st in enumerate(cur["body"]) if i not in set(tops)], "entry": cur["entry"], "argvs": cur["argvs"]}
+            rc = evaluate(scratch, [comb])[0]
+            if rc["status"] in ("mismatch", "nogir") and still_fails(rc):
+                nxt = rc
+        cur = {k: v for k, v in nxt["prog"].items() if k != "_top"}
     return cur
 
 
@@ -463,7 +473,7 @@ def process_batch(arg):
     scratch = Scratch()
     out = {"generated": 0, "rejected_by_oracle": 0, "pass": 0, "mismatch": 0, "nogir": 0, "known": {}, "known_example": {},
            "constructs": {}, "shapes": {}, "stmts_total": 0, "hashes": [], "samples": [], "unexplained": [],
-           "with_class": 0, "with_fluent_chain": 0}
+           "with_class": 0, "with_fluent_chain": 0, "probes": {}}
     try:
         progs = [pygen.generate(s, size=("small" if i % 5 == 0 else "normal")) for i, s in enumerate(chunk)]
         results = evaluate(scratch, progs)
@@ -475,6 +485,8 @@ def process_batch(arg):
             for sh in pygen.shapes(p):
                 out["shapes"][sh] = out["shapes"].get(sh, 0) + 1
             out["stmts_total"] += pygen.count_stmts(p["body"])
+            for pk in p.get("probes", ()):
+                out["probes"][pk] = out["probes"].get(pk, 0) + 1
             if "\nclass " in "\n" + r["source"]:
                 out["with_class"] += 1
             if ").m" in r["source"]:
@@ -535,6 +547,8 @@ def run(ctx):
                     stats["constructs"][k] = stats["constructs"].get(k, 0) + v
                 for k, v in out["shapes"].items():
                     stats["shapes"][k] = stats["shapes"].get(k, 0) + v
+                for k, v in out["probes"].items():
+                    stats.setdefault("probes", {})[k] = stats.setdefault("probes", {}).get(k, 0) + v
                 for h, nt in out["hashes"]:
                     distinct[h] = nt
                 if len(samples) < 2:
@@ -583,6 +597,9 @@ def run(ctx):
                                                   "with_class", "with_fluent_chain")}
         ctx.cov["constructs_hit"] = dict(sorted(stats["constructs"].items()))
         ctx.cov["defect_shapes_generated"] = stats["shapes"]
+        # evaluation-order / evaluation-time probes: constructs with >= 2 effectful sub-expressions (tracing helper) in
+        # distinct operand positions, and definition-time vs call-time situations; count of generated instances per class
+        ctx.cov["order_and_time_probe_positions"] = dict(sorted(stats.get("probes", {}).items()))
         ctx.cov["mean_statements_per_program"] = round(stats["stmts_total"] / max(1, stats["generated"]), 1)
         ctx.cov["fingerprints"] = fingerprints()
         t = time.time()
